@@ -2559,7 +2559,10 @@ BD_Shape<T>::simplify_using_context_assign(const BD_Shape& y) {
   // Filter away the zero-dimensional case.
   if (dim == 0) {
     if (y.marked_empty()) {
-      x.set_zero_dim_univ();
+      // Note: if `x' is empty its dbm may contain anything:
+      // setting the zero-dim universe flag would not be enough.
+      BD_Shape<T> res(dim, UNIVERSE);
+      x.m_swap(res);
       return false;
     }
     else {
